@@ -6,7 +6,7 @@
         matches := error("<name>",x, message ,[_result_0,...])
       }
    and of the constraint snippets whose shape is "bind the values of the path, draw one, test it": count / length
-   (count.go), pattern (pattern.go), datatype (datatype.go).  The numbers in the generated names are parameters: the
+   (count.go), pattern (pattern.go), datatype (datatype.go), numeric bounds (numericcomparison.go), `in` (scalar_superset.go).  The numbers in the generated names are parameters: the
    correspondence run reads them off the real module and compares every line.  [*_du] is the reading of the lines as
    (variable bound, variables needed); Proofs/RuleGenProofs.v: every such rule body is safe. *)
 From ACV Require Import Base.Strs Model.Report Model.Names Model.Escape.
@@ -58,6 +58,28 @@ Definition datatype_snippet (x src rule : string) (n : nat) (negated : bool) (dt
      sn_id := "datatype"; sn_path := tpath;
      sn_value := """negated"":" ++ bool_text negated ++ ",""actual"": " ++ v ++ ",""expected"": " ++ q dt;
      sn_value_uses := [v] |}.
+
+(* ---- numericcomparison.go, integer argument; [ktext] is the number as the profile writes it *)
+Definition numeric_snippet (x src rule : string) (n : nat) (negated : bool) (cid op ktext tpath : string) : snippet :=
+  let v := genvar "numeric_comparison" n in
+  {| sn_lines := ["#  querying path: " ++ src; v ++ "_elem = " ++ rule ++ " with data.sourceNode as " ++ x; v ++ " = " ++ v ++ "_elem[_]";
+                  (if negated then "" else "not ") ++ v ++ " " ++ op ++ " " ++ ktext];
+     sn_du := [(v ++ "_elem", [x]); (v, [v ++ "_elem"]); ("", [v])];
+     sn_id := cid; sn_path := tpath;
+     sn_value := """negated"":" ++ bool_text negated ++ ",""condition"":" ++ q op ++ ",""expected"":" ++ ktext ++ ",""actual"":" ++ v;
+     sn_value_uses := [v] |}.
+
+(* ---- scalar_superset.go (`in`): n1 numbers the value set, n2 the checked value *)
+Definition in_snippet (x src rule : string) (n1 n2 : nat) (negated : bool) (vals : list string) (tpath : string) : snippet :=
+  let set := genvar "inValues" n1 in
+  let chk := genvar (x ++ "_check") n2 in
+  {| sn_lines := ["#  querying path: " ++ src; chk ++ "_array = " ++ rule ++ " with data.sourceNode as " ++ x; chk ++ "_scalar = " ++ chk ++ "_array[_]";
+                  chk ++ " = as_string(" ++ chk ++ "_scalar)"; set ++ " = { " ++ join_quoted vals ++ "}";
+                  (if negated then "" else "not ") ++ set ++ "[" ++ chk ++ "]"];
+     sn_du := [(chk ++ "_array", [x]); (chk ++ "_scalar", [chk ++ "_array"]); (chk, [chk ++ "_scalar"]); (set, []); ("", [set; chk])];
+     sn_id := "in"; sn_path := tpath;
+     sn_value := """negated"":" ++ bool_text negated ++ ",""actual"": " ++ chk ++ ",""expected"": " ++ q (escape ("[" ++ join_quoted vals ++ "]"));
+     sn_value_uses := [chk] |}.
 
 (* ---- wrapBranch + the rule around it *)
 Definition trace_line (i : nat) (x : string) (s : snippet) : string :=
